@@ -1,5 +1,5 @@
 //verif:pkg internal/spynode
-//verif:kit memstore nodekit synckit worldkit
+//verif:kit memstore nodekit synckit worldkit interleave
 package spynode
 
 // C01 — convergence to the trusted peer's best chain through extensions and
